@@ -364,18 +364,8 @@ fn digest(out: &mut Out, text: &str, status: &str) {
             }
             let req = format!("hist real ({})", f[2]);
             let payload = format!("(frames {} values {})", f[3], f[4]);
-            // after a failed host call the thread is corrupt: only "one failed host call, no host call after it,
-            // VM still inspectable" is inside the model's fragment
-            let hpos = names.iter().position(|n| *n == "host-call-err");
-            let host_outside = match hpos {
-                None => false,
-                // (a later *successful* evaluation returns through the stale frames and consumes them — with wrong
-                // intermediate results, which the oracle reports — so only failing top-level steps may follow)
-                Some(p) => {
-                    names[p + 1..].iter().any(|n| n.starts_with("host-call") || n.starts_with("ok-"))
-                        || f[3].parse::<i64>().unwrap_or(0) > 900_000
-                }
-            };
+            // a VM that cannot be inspected any more (poisoned context mutex) is outside the model
+            let host_outside = f[3].parse::<i64>().unwrap_or(0) > 900_000;
             if host_outside {
                 out.count("skipped-correspondence:history-after-failed-host-call");
             } else {
